@@ -39,6 +39,7 @@ import (
 
 	"verif/internal/ev"
 	"verif/internal/hx"
+	"verif/internal/kf"
 	"verif/internal/memfs"
 	"verif/internal/run"
 )
@@ -143,90 +144,19 @@ type Case struct {
 
 func (o Op) isWrite() bool { return o.Op == "edit" || o.Op == "recreate" || o.Op == "invalid" }
 
-type fstate struct {
-	exists   bool
-	v        int
-	mt       int64
-	lastDt0  bool // the most recent write kept the mtime and changed the content
-	touched  bool // written/deleted since a render that depended on it
-	rendered bool // some earlier render depended on it
-}
-
-func getVariant(file string, v int) (variant, error) {
-	vs, ok := variants[file]
-	if !ok {
-		return variant{}, fmt.Errorf("harness: unknown file %q", file)
-	}
-	if v < 0 || v >= len(vs) {
-		return variant{}, fmt.Errorf("harness: file %q has no variant %d", file, v)
-	}
-	return vs[v], nil
-}
-
-// closure over-approximates the files a correct engine reads for render(entry, target) in the
-// current state, provided none of the returned files is ambiguous (see execute).
-func closure(st map[string]*fstate, entry, target string) []string {
-	seen := map[string]bool{}
-	var out []string
-	add := func(f string) {
-		if !seen[f] {
-			seen[f] = true
-			out = append(out, f)
-		}
-	}
-	cur := func(f string) (variant, bool) {
-		s := st[f]
-		if s == nil || !s.exists {
-			return variant{}, false
-		}
-		return variants[f][s.v], true
-	}
-	add(target)
-	tv, ok := cur(target)
-	if !ok || !tv.LoadOK {
-		return out
-	}
-	if tv.Include {
-		add(fComp)
-	}
-	if entry == eVueRender || entry == eVueFrag {
-		return out
-	}
-	switch tv.Layout {
-	case "main":
-		add(fMain)
-		if mv, ok := cur(fMain); ok && mv.LoadOK {
-			if mv.Include {
-				add(fComp)
-			}
-			if mv.Layout == "base" {
-				add(fBase)
-			}
-		}
-	case "base":
-		add(fBase)
-	default:
-		// no layout named: layouts/base.vuego is applied when it exists (template_render.go)
-		if target != fBase {
-			add(fBase)
-		}
-	}
-	return out
-}
-
 // stats is what one execution observed; used for classification only.
 type stats struct {
-	renders, asserted   int
-	skipSame, skipABA   int
-	cacheHits           int
-	okBoth, errBoth     int
-	afterFailed         int // asserted renders that came after a failed render of the long-lived engine
-	rer                 bool
-	entries             map[string]bool
-	opKinds             map[string]bool
-	modelMismatch       string
-	modelMismatchCount  int
-	freshRendersWithErr int
+	renders, asserted  int
+	skipSame, skipABA  int
+	cacheHits          int
+	okBoth, errBoth    int
+	afterFailed        int // asserted renders that came after a failed render of the long-lived engine
+	rer                bool
+	entries            map[string]bool
+	opKinds            map[string]bool
+	modelMismatch      string
+	modelMismatchCount int
+	staleRegion        int // asserted renders where a file came back with the mtime of an older state the engine must have dropped
 }
 
 // testData builds the caller's data (a new map each time). It varies between renders so that
@@ -253,46 +183,6 @@ func doRender(entry, target string, d int, root vuego.Template, vue *vuego.Vue) 
 	return buf.String(), err
 }
 
-// expectOK is the harness model's prediction whether render(entry,target) succeeds on a fresh
-// engine. It is used for a sanity counter only (never to fail a case).
-func expectOK(st map[string]*fstate, entry, target string) bool {
-	ok := func(f string) (variant, bool) {
-		s := st[f]
-		if s == nil || !s.exists {
-			return variant{}, false
-		}
-		v := variants[f][s.v]
-		return v, v.LoadOK && v.RenderOK
-	}
-	compOK := func() bool { _, k := ok(fComp); return k }
-	tv, k := ok(target)
-	if !k || (tv.Include && !compOK()) {
-		return false
-	}
-	if entry == eVueRender || entry == eVueFrag {
-		return true
-	}
-	needBase := false
-	switch tv.Layout {
-	case "main":
-		mv, k := ok(fMain)
-		if !k || (mv.Include && !compOK()) {
-			return false
-		}
-		needBase = mv.Layout == "base"
-	case "":
-		if s := st[fBase]; s != nil && s.exists && target != fBase {
-			needBase = true
-		}
-	}
-	if needBase {
-		if _, k := ok(fBase); !k {
-			return false
-		}
-	}
-	return true
-}
-
 func describeFiles(fs *memfs.FS, st map[string]*fstate) string {
 	var sb strings.Builder
 	files := fs.Files()
@@ -310,133 +200,51 @@ func describeFiles(fs *memfs.FS, st map[string]*fstate) string {
 // execute runs the history and returns the first violation (nil if none) and statistics.
 func execute(c Case) (error, stats) {
 	s := stats{entries: map[string]bool{}, opKinds: map[string]bool{}}
-	fs := memfs.New()
-	st := map[string]*fstate{}
-	for _, f := range allFiles {
-		st[f] = &fstate{mt: t0}
+	m, err := newModel(c.Init)
+	if err != nil {
+		return err, s
 	}
+	fs := memfs.New()
 	for f, v := range c.Init {
-		vr, err := getVariant(f, v)
-		if err != nil {
-			return err, s
-		}
-		st[f].exists, st[f].v = true, v
-		fs.Write(f, vr.Content, time.Unix(t0, 0))
+		fs.Write(f, variants[f][v].Content, time.Unix(t0, 0))
 	}
 	// The long-lived engines.
 	root := vuego.NewFS(fs)
 	vue := vuego.NewVue(fs)
-	// obsBy[engine][file][mtime] = set of variants a render of that long-lived engine (the root
-	// template's Vue, or the stand-alone Vue: they have separate caches) may have seen under
-	// that mtime
-	type obsMap map[string]map[int64]map[int]bool
-	obsBy := map[bool]obsMap{}
-	for _, e := range []bool{false, true} {
-		obsBy[e] = obsMap{}
-		for _, f := range allFiles {
-			obsBy[e][f] = map[int64]map[int]bool{}
-		}
-	}
 	failedBefore := false
 
 	for i, op := range c.Ops {
+		m.step = i
 		switch {
 		case op.isWrite():
 			vr, err := getVariant(op.File, op.V)
 			if err != nil {
 				return err, s
 			}
-			f := st[op.File]
-			mt := f.mt + int64(op.Dt)
-			if mt < 1 {
-				mt = 1 // zero mtime means "unknown" to the cache: excluded
-			}
-			kind := "edit"
-			if !f.exists {
-				kind = "recreate"
-			}
-			if !vr.LoadOK {
-				kind = "make-invalid"
-			}
+			kind, mtClass := m.write(op.File, op.V, op.Dt)
 			s.opKinds["op:"+kind+":"+op.File] = true
-			switch {
-			case mt > f.mt:
-				s.opKinds["mtime:advance"] = true
-			case mt == f.mt:
-				s.opKinds["mtime:same"] = true
-			default:
-				s.opKinds["mtime:backwards"] = true
-			}
-			changed := !f.exists || f.v != op.V
-			f.lastDt0 = mt == f.mt && changed
-			f.exists, f.v, f.mt = true, op.V, mt
-			if f.rendered {
-				f.touched = true
-			}
-			fs.Write(op.File, vr.Content, time.Unix(mt, 0))
+			s.opKinds[mtClass] = true
+			fs.Write(op.File, vr.Content, time.Unix(m.st[op.File].mt, 0))
 		case op.Op == "delete":
-			f := st[op.File]
-			if f == nil {
+			if m.st[op.File] == nil {
 				return fmt.Errorf("harness: unknown file %q", op.File), s
 			}
 			s.opKinds["op:delete:"+op.File] = true
-			if f.exists && f.rendered {
-				f.touched = true
-			}
-			f.exists = false
-			f.lastDt0 = false
+			m.remove(op.File)
 			fs.Remove(op.File)
 		case op.Op == "render":
 			target := op.Target
 			if target == "" {
 				target = fPage
 			}
-			if st[target] == nil {
+			if m.st[target] == nil {
 				return fmt.Errorf("harness: unknown render target %q", target), s
 			}
 			s.renders++
 			s.entries["entry:"+op.Entry] = true
-			deps := closure(st, op.Entry, target)
-			obs := obsBy[op.Entry == eVueRender || op.Entry == eVueFrag]
-			// Which dependencies are ambiguous under mtime validation?
-			ambiguous, viaSame := "", false
-			for _, f := range deps {
-				fsT := st[f]
-				if !fsT.exists {
-					continue
-				}
-				for seen := range obs[f][fsT.mt] {
-					if seen != fsT.v {
-						ambiguous, viaSame = f, fsT.lastDt0
-					}
-				}
-				if ambiguous != "" {
-					break
-				}
-			}
-			// Record what this render may make the long-lived engine remember. With an ambiguous
-			// dependency the engine may follow stale content, so every file counts then.
-			record := deps
-			if ambiguous != "" {
-				record = allFiles
-			}
-			for _, f := range record {
-				fsT := st[f]
-				if fsT.exists && variants[f][fsT.v].LoadOK {
-					if obs[f][fsT.mt] == nil {
-						obs[f][fsT.mt] = map[int]bool{}
-					}
-					obs[f][fsT.mt][fsT.v] = true
-				}
-			}
-			for _, f := range deps {
-				if st[f].rendered && st[f].touched {
-					s.rer = true
-				}
-			}
-			for _, f := range deps {
-				st[f].rendered = true
-				st[f].touched = false
+			ri := m.preRender(op.Entry, target)
+			if ri.rer {
+				s.rer = true
 			}
 
 			fs.ResetCounters()
@@ -446,23 +254,25 @@ func execute(c Case) (error, stats) {
 			snap := fs.Snapshot()
 			var want string
 			var wantErr error
-			if op.Entry == eVueRender || op.Entry == eVueFrag {
+			if viewIndex(op.Entry) == 1 {
 				want, wantErr = doRender(op.Entry, target, op.D, nil, vuego.NewVue(snap))
 			} else {
 				want, wantErr = doRender(op.Entry, target, op.D, vuego.NewFS(snap), nil)
 			}
-			if wantErr != nil {
-				s.freshRendersWithErr++
-			}
-			if (wantErr == nil) != expectOK(st, op.Entry, target) {
+			modelOK := m.expectOK(op.Entry, target)
+			if (wantErr == nil) != modelOK {
 				s.modelMismatchCount++
 				if s.modelMismatch == "" {
-					s.modelMismatch = fmt.Sprintf("step %d %s(%s): fresh engine err=%v but the harness model expected ok=%v", i, op.Entry, target, wantErr, wantErr != nil)
+					s.modelMismatch = fmt.Sprintf("step %d %s(%s): fresh engine err=%v but the harness model expected ok=%v", i, op.Entry, target, wantErr, modelOK)
 				}
 			}
+			// "succeeded" for the model only when the fresh engine and the model agree on it
+			// (the conservative choice: fewer resets of what the engine may hold, more skips)
+			m.postRender(op.Entry, target, ri, wantErr == nil && modelOK)
+
 			longFailed := gotErr != nil
-			if ambiguous != "" {
-				if viaSame {
+			if ri.ambiguous != "" {
+				if ri.viaSame {
 					s.skipSame++
 				} else {
 					s.skipABA++
@@ -471,6 +281,9 @@ func execute(c Case) (error, stats) {
 				continue
 			}
 			s.asserted++
+			if ri.stale != "" {
+				s.staleRegion++
+			}
 			if failedBefore {
 				s.afterFailed++
 			}
@@ -478,7 +291,7 @@ func execute(c Case) (error, stats) {
 			where := fmt.Sprintf("step %d: %s(%s)", i, op.Entry, target)
 			if (gotErr == nil) != (wantErr == nil) {
 				return fmt.Errorf("%s: long-lived engine err=%v, engine created now err=%v\n  long-lived output: %q\n  fresh output: %q\n  files now:%s",
-					where, gotErr, wantErr, got, want, describeFiles(fs, st)), s
+					where, gotErr, wantErr, got, want, describeFiles(fs, m.st)), s
 			}
 			if gotErr != nil {
 				s.errBoth++
@@ -496,7 +309,7 @@ func execute(c Case) (error, stats) {
 				}
 				if d := hx.Diff(a, b, hx.Options{}); d != "" {
 					return fmt.Errorf("%s: long-lived engine renders something else than an engine created now: %s\n  long-lived: %q\n  fresh:      %q\n  files now:%s",
-						where, d, got, want, describeFiles(fs, st)), s
+						where, d, got, want, describeFiles(fs, m.st)), s
 				}
 			}
 		default:
@@ -566,6 +379,9 @@ func classify(c Case) (bool, []string) {
 	if s.afterFailed > 0 {
 		cls = append(cls, "asserted-render-after-failed-render")
 	}
+	if s.staleRegion > 0 {
+		cls = append(cls, "asserted:old-mtime-back-after-engine-saw-other-state")
+	}
 	if _, ok := c.Init[fBase]; ok {
 		cls = append(cls, "init:base-present")
 	} else {
@@ -588,6 +404,7 @@ func classify(c Case) (bool, []string) {
 		rec.Count("steps:render-skipped-mtime-returned", s.skipABA)
 		rec.Count("steps:render-answered-from-cache", s.cacheHits)
 		rec.Count("steps:asserted-after-failed-render", s.afterFailed)
+		rec.Count("steps:asserted-old-mtime-back-after-engine-saw-other-state", s.staleRegion)
 		if s.modelMismatchCount > 0 {
 			rec.Count("sanity:model-mismatch", s.modelMismatchCount)
 			noteOnce(s.modelMismatch)
@@ -680,7 +497,8 @@ func buildHistory(init map[string]int, word []int) Case {
 	return c
 }
 
-func enumerate(t *testing.T, maxLen int) {
+// enumerate runs every history of length <= maxLen[i] for initial configuration i.
+func enumerate(t *testing.T, maxLen []int) {
 	shard, shards := run.Shard()
 	inits := []map[string]int{
 		{fPage: 1, fComp: 0, fMain: 0},           // page names layout main, no default layout
@@ -688,24 +506,37 @@ func enumerate(t *testing.T, maxLen int) {
 	}
 	n := 0
 	complete := true
+	top := 0
+	for _, l := range maxLen {
+		if l > top {
+			top = l
+		}
+	}
 	var word []int
 	var rec2 func() bool
 	rec2 = func() bool {
 		if len(word) > 0 && alphabet[word[len(word)-1]].op == "render" {
 			// a history that does not end in a render is covered by its longest prefix that does
-			for _, init := range inits {
+			for ii, init := range inits {
+				if len(word) > maxLen[ii] {
+					continue
+				}
 				n++
 				if n%shards != shard {
 					continue
 				}
 				c := buildHistory(init, word)
+				if _, ids := sanitize(c, avoid); len(ids) > 0 {
+					rec.Excluded(ids[0])
+					continue
+				}
 				nt, cls := classify(c)
 				if !run.Each(rec, "enum", c, nt, append(cls, "enum"), check) {
 					return false
 				}
 			}
 		}
-		if len(word) == maxLen {
+		if len(word) == top {
 			return true
 		}
 		for i := range alphabet {
@@ -720,7 +551,7 @@ func enumerate(t *testing.T, maxLen int) {
 	}
 	complete = rec2()
 	if complete {
-		rec.Exhaustive(fmt.Sprintf("all histories of length 1..%d over the %d-letter alphabet that end in a render, x %d initial configurations (%d histories)", maxLen, len(alphabet), len(inits), n))
+		rec.Exhaustive(fmt.Sprintf("all histories over the %d-letter alphabet that end in a render: length 1..%d from configuration A (page names layout main, no default layout), length 1..%d from configuration B (page without layout, default layout present, main chains to base) (%d histories)", len(alphabet), maxLen[0], maxLen[1], n))
 	}
 }
 
@@ -813,7 +644,13 @@ func genCase(t *rapid.T) Case {
 			c.Ops = append(c.Ops, Op{Op: "delete", File: f})
 		}
 	}
-	return c
+	// stay out of the regions of open known findings by construction: the offending write gets
+	// a brand-new mtime, the rest of the history is kept
+	c2, ids := sanitize(c, avoid)
+	for _, id := range ids {
+		rec.Excluded(id)
+	}
+	return c2
 }
 
 func indexOf(xs []int, x int) int {
@@ -825,13 +662,21 @@ func indexOf(xs []int, x int) int {
 	return 0
 }
 
+// avoid: the open known findings whose regions the generators stay out of.
+var avoid = map[string]bool{}
+
 func TestProp(t *testing.T) {
 	rec = ev.New(prop)
+	for _, id := range []string{findingUncached, findingBase} {
+		if kf.Load().Open(id) {
+			avoid[id] = true
+		}
+	}
 	defer run.Finish(t, rec)
 	run.Witnesses(rec, prop, replay)
 
 	if os.Getenv("C15_NOENUM") == "" {
-		enumerate(t, run.Pick(4, 5))
+		enumerate(t, run.Pick([]int{4, 3}, []int{5, 5}))
 	}
 	run.Rapid(t, rec, "history", genCase, classify, check)
 }
